@@ -587,6 +587,22 @@ func c15(c *ctx) {
 			}
 		}
 	}
+	// compressed payloads that stop inside a block: stored blocks announcing more than follows, a header
+	// cut in the middle, a dynamic block without its tables, empty input
+	for di, d := range [][]byte{{}, {0x00}, {0x00, 0x10}, {0x00, 0x10, 0x00}, {0x00, 0x10, 0x00, 0xef, 0xff}, {0x00, 0x10, 0x00, 0xef, 0xff, 0x61, 0x62}, {0x00, 0x05, 0x00, 0xfa, 0xff},
+		{0x00, 0xff, 0xff, 0x00, 0x00, 1, 2, 3}, {0x01, 0x02, 0x00, 0xfd, 0xff, 0x61}, {0x04}, {0x05, 0xc0}, {0xf2, 0x48}, {0xf2, 0x48, 0xcd, 0xc9}, {0x02}, {0x06}, {0xff},
+		{0x00, 0x00, 0x00, 0xff, 0xff, 0x00, 0x02, 0x00, 0xfd, 0xff, 0x61}} {
+		for _, e := range entries["deflate"] {
+			call(fmt.Sprintf("cutdeflate/%d/%s", di, e.name), "deflate", e.name, e.f, d, "cutdeflate", false, false, 0)
+		}
+		// the same as the payload of a compressed frame
+		fr := vh.BuildFrame(2, true, 4, false, [4]byte{}, d)
+		for _, e := range entries["frames"] {
+			if e.name == "DecompressFrame" {
+				call(fmt.Sprintf("cutdeflateframe/%d", di), "frames", e.name, e.f, fr, "cutdeflate", false, false, 0)
+			}
+		}
+	}
 	okReq := "GET /x HTTP/1.1\r\nHost: h\r\nUpgrade: websocket\r\nConnection: Upgrade\r\nSec-WebSocket-Version: 13\r\nSec-WebSocket-Key: dGhlIHNhbXBsZSBub25jZQ==\r\n"
 	badLines := []string{"X-Blank: ", "X-Blank:  \t ", "X-Blank:\t", " \t: v", "\t:\t", "Sec-WebSocket-Protocol:  ", "Sec-WebSocket-Extensions: \t", "Host:   ", "Connection:  ", "Upgrade: \t",
 		"", ":", ": v", "NoColon", " : ", "X", "\x00: \x00", "A:" + strings.Repeat(" ", 5000), strings.Repeat("k", 5000) + ": v", "Sec-WebSocket-Key", "Sec-WebSocket-Key:",
